@@ -25,12 +25,19 @@ func validatePerBlockReward(r interface{}) error {
 	if len(reward) == 0 {
 		return fmt.Errorf("invalid per block reward: %v", reward)
 	}
-	for _, rr := range reward {
+	for i, rr := range reward {
 		if len(rr.Denom) == 0 {
 			return fmt.Errorf("denom of per block reward can not be empty")
 		}
 		if rr.IsNegative() {
 			return fmt.Errorf("invalid per block reward: %v", rr)
+		}
+		// every denomination may appear only once: the per block release is
+		// min(reward, remaining) per denomination
+		for _, prev := range reward[:i] {
+			if prev.Denom == rr.Denom {
+				return fmt.Errorf("duplicate denom in per block reward: %s", rr.Denom)
+			}
 		}
 	}
 	return nil
